@@ -129,8 +129,8 @@ func Wrap(err error, loc string) error {
 			res.Loc = append(res.Loc, loc)
 			return &res
 		}
-		e.Loc = append(e.Loc, loc)
-		return err
+		// The MalformedFileError is wrapped inside another error: leave it
+		// alone (it may be shared) and add the location on the outside.
 	}
 	return fmt.Errorf("%s: %w", loc, err)
 }
